@@ -477,8 +477,9 @@ func fixLength(isResponse bool, status int, requestMethod string, header Header,
 			return -1, err
 		}
 		return n, nil
-	} else {
-		header.Del("Content-Length")
+	} else if _, present := header["Content-Length"]; present {
+		// Content-Length = 1*DIGIT: an empty value is invalid, not "no body"
+		return -1, &badStringError{"invalid empty Content-Length", cl}
 	}
 
 	if !isResponse && requestMethod == MethodGet {
